@@ -647,7 +647,7 @@ def run(chk):
     # frames of unsupported DLTs cannot be annotated with CLASSES; they have no frames
     run_batch(reg)
     # 2. seeded random cases
-    ncases = 3000 if not thorough else 60000
+    ncases = 3000 if not thorough else 36000      # sessions and the extra write calls make a case ~1.5x as long as before
     batch = 500 if not thorough else 1000
     done = 0
     while done < ncases:
